@@ -176,6 +176,9 @@ def user_script(rnd, end=None, allow_pause=True):
                 ops.append({"op": "sleep", "us": 20000})
                 ops.append({"op": "progress"})
                 ops.append({"op": "resume"})
+            if rnd.random() < 0.3:
+                # wait without a practical limit: returns when the run has finished
+                ops.append({"op": "wait", "ms": 0, "max": True})
             for _ in range(6):
                 ops.append({"op": "wait", "ms": 4000})
             ops.append({"op": "abort"})
